@@ -163,6 +163,16 @@ type Memo struct {
 func (m Memo) BeforeSave(tx *gorm.DB) error { return call("BeforeSave", "Memo", &m, tx) }
 
 // AllModels lists every model (migration order).
+// Club has many Users through their manager column and is reachable from no other
+// model (and in no fixture, no warm-up list): its first use, always on a cold cache,
+// writes a back-reference into User's already published schema.  Only ever used in
+// dry-run statements (there is no clubs table).
+type Club struct {
+	ID      uint
+	Name    string
+	Members []User `gorm:"foreignKey:ManagerID"`
+}
+
 func AllModels() []interface{} {
 	return []interface{}{&Company{}, &Language{}, &User{}, &Account{}, &Pet{}, &Toy{}, &Note{}, &KV{}, &Marker{}, &Gadget{}, &Keeper{}, &Thing{}, &Memo{}}
 }
